@@ -12,6 +12,7 @@ import (
 func runC06(c *core.Ctx) {
 	RunIn(c, "", 16, 2048)
 	runC06CLI(c)
+	runC06Histories(c)
 }
 
 type C12Mon struct{}
@@ -141,7 +142,7 @@ func offClass(off int) string {
 
 func init() {
 	register(&Prop{ID: "C06", Level: "exploration", NeedIn: true,
-		Rule:   "(a) in-process, exhaustive over a sub-space: every conflict-free subset P (|P|<=3 quick, <=4 thorough) of a 34-path universe built around the byte order of '/' and regexp metacharacters, inserted through the real Index.Update in seeded random order, then reloaded; for every query q in the universe, its directory prefixes and single components: GetEntry found <=> q in P, IsRegisteredAsDirectory <=> some path beneath q/, GetEntriesByDirectory == the paths beneath q/, no panic; the written file must decode (independent decoder) to exactly P in strictly ascending order; (b) CLI: after every command that rewrites .goit/index the file is decoded and checked for canonical form and against ls-files; sampled P: rm/restore/add on every tracked path, tracked directory and near-miss name select exactly the tracked paths beneath; distinct = (P, q) pairs with a non-trivial expected answer + CLI classes",
+		Rule:   "(a) in-process, exhaustive over a sub-space: every conflict-free subset P (|P|<=3 quick, <=4 thorough) of a 34-path universe built around the byte order of '/' and regexp metacharacters, inserted through the real Index.Update in seeded random order, then reloaded; for every query q in the universe, its directory prefixes and single components: GetEntry found <=> q in P, IsRegisteredAsDirectory <=> some path beneath q/, GetEntriesByDirectory == the paths beneath q/, no panic; the written file must decode (independent decoder) to exactly P in strictly ascending order; (b) CLI: seeded histories of add/rm/restore/restore --staged/reset/commit; after every command that rewrites .goit/index the file is decoded and checked for canonical form and against ls-files; sampled P: rm/restore/add on every tracked path, tracked directory and near-miss name select exactly the tracked paths beneath; distinct = (P, q) pairs with a non-trivial expected answer + CLI classes",
 		Mons:   func() []core.Monitor { return []core.Monitor{C06Mon{}} },
 		Run:    runC06,
 		Floors: []core.Floor{{Key: "C06.getentry", Min: 100000}, {Key: "C06.cli-addressable", Min: 300}, {Key: "C06.file-canonical", Min: 1000}},
